@@ -336,6 +336,18 @@ Section ClientFacts.
   Qed.
 
   (* ---- the referrers tag schema ---- *)
+  (* the source of decodeJSON reads the body through content.ReadAll (regenerated call sequence) *)
+  Lemma decode_json_verifies_true : decode_json_verifies = true.
+  Proof. vm_compute. reflexivity. Qed.
+
+  Lemma referrersFromIndex_order :
+    referrersFromIndex_calls = [b "r.FetchReference"; b "limitSize"; b "decodeJSON"].
+  Proof. vm_compute. reflexivity. Qed.
+
+  Lemma calculateDigest_bounded_read :
+    calculateDigest_calls = [b "limitReader"; b "io.ReadAll"; b "digest.FromBytes"].
+  Proof. vm_compute. reflexivity. Qed.
+
   Lemma ref_tag_plain dg :
     valid_digest dg = true ->
     contains c_slash (ref_tag dg) = false /\ contains c_at (ref_tag dg) = false.
@@ -375,7 +387,7 @@ Section ClientFacts.
     destruct (man_fetchref _ _ _ _ _ _ _ s tag) as [[s1 t1] res1] eqn:E. apply man_fetchref_allowed in E.
     destruct res1; try (intro X; inv_pair X; exact E).
     destruct (limit <? d_sz d); [intro X; inv_pair X; exact E|].
-    destruct (negb _ || negb _); [intro X; inv_pair X; exact E|].
+    destruct (decode_json_verifies && _); [intro X; inv_pair X; exact E|].
     destruct (index_of c); intro X; inv_pair X; exact E.
   Qed.
 
@@ -444,7 +456,7 @@ Section ClientFacts.
         destruct res0; try (intro Y; inv_pair Y; discriminate).
         apply man_fetchref_desc_valid in E0.
         destruct (limit <? d_sz d); [intro Y; inv_pair Y; discriminate|].
-        destruct (negb (len c =? d_sz d) || negb (str_eqb (H c) (d_dg d))); [intro Y; inv_pair Y; discriminate|].
+        destruct (decode_json_verifies && _); [intro Y; inv_pair Y; discriminate|].
         destruct (index_of c); intro Y; inv_pair Y; try discriminate. exact E0.
     - destruct e; try (intro X; inv_pair X; exact A1).
       intro X. eapply (G None []); eauto.
@@ -849,7 +861,7 @@ Section Consistency.
     destruct (man_fetchref _ _ _ _ _ _ _ s tag) as [[s1 t1] res1] eqn:E.
     destruct (man_fetchref_shape _ _ _ _ _ E) as [(d0 & c0 & ->)|[e ->]]; [|intro X; injection X as _ _ <- _; eauto].
     destruct (limit <? d_sz d0); [intro X; injection X as _ _ <- _; eauto|].
-    destruct (negb _ || negb _); [intro X; injection X as _ _ <- _; eauto|].
+    destruct (decode_json_verifies && _); [intro X; injection X as _ _ <- _; eauto|].
     destruct (index_of c0); intro X; injection X as _ _ <- _; eauto.
   Qed.
 
@@ -863,6 +875,7 @@ Section Consistency.
     destruct (man_fetchref _ _ _ _ _ _ _ s tag) as [[s1 t1] res1] eqn:E.
     destruct res1 as [| | | |d0 body| |]; try (intro X; discriminate X).
     destruct (limit <? d_sz d0) eqn:El; [discriminate|].
+    rewrite decode_json_verifies_true. cbn [andb].
     destruct (negb (len body =? d_sz d0) || negb (str_eqb (H body) (d_dg d0))) eqn:Ev; [discriminate|].
     destruct (index_of body) as [l0|] eqn:Ei; [|discriminate].
     intro X. injection X as <- <- <- <-.
